@@ -120,6 +120,9 @@ pub struct Be<V> {
     pub barrier_done: Vec<AtomicU64>,
     pub exit_notifiers: Mutex<Vec<Option<EventNotifier>>>,
     pub handle_event_calls: AtomicUsize,
+    /// while true, the set_config callback does not return (C16: shutdown while inside the handler)
+    pub block_set_config: std::sync::atomic::AtomicBool,
+    pub in_set_config: std::sync::atomic::AtomicBool,
 }
 
 impl<V> Be<V> {
@@ -147,6 +150,8 @@ impl<V> Be<V> {
             barrier_done: (0..nthreads).map(|_| AtomicU64::new(0)).collect(),
             exit_notifiers: Mutex::new((0..nthreads).map(|_| None).collect()),
             handle_event_calls: AtomicUsize::new(0),
+            block_set_config: std::sync::atomic::AtomicBool::new(false),
+            in_set_config: std::sync::atomic::AtomicBool::new(false),
             cfg,
         })
     }
@@ -191,6 +196,11 @@ impl<V: VringT<GM> + Send + Sync + 'static> VhostUserBackend for Be<V> {
     }
     fn set_config(&self, offset: u32, buf: &[u8]) -> std::io::Result<()> {
         self.st.lock().unwrap().config_sets.push((offset, buf.to_vec()));
+        self.in_set_config.store(true, Ordering::SeqCst);
+        while self.block_set_config.load(Ordering::SeqCst) {
+            std::thread::sleep(Duration::from_micros(200));
+        }
+        self.in_set_config.store(false, Ordering::SeqCst);
         Ok(())
     }
     fn update_memory(&self, mem: GM) -> std::io::Result<()> {
